@@ -342,6 +342,7 @@ class YP(object):
 
     def asserta(self, term):
         '''asserta(Term) adds Term to the facts database at the beginning.'''
+        term = get_value(term)
         if isinstance(term, Functor):
             self.assert_fact(self.atom(term._name), term._args, False)
         elif isinstance(term, Atom):
@@ -350,6 +351,7 @@ class YP(object):
 
     def assertz(self, term):
         '''assertz(Term) adds Term to the facts database at the end.'''
+        term = get_value(term)
         if isinstance(term, Functor):
             self.assert_fact(self.atom(term._name), term._args)
         elif isinstance(term, Atom):
@@ -358,14 +360,17 @@ class YP(object):
 
     def retract(self, term):
         '''retract(Term) removes all dynamic facts matching Term and backtracks over identical clauses.'''
+        term = get_value(term)
         if isinstance(term, Functor):
             name = term._name
             args = term._args
         elif isinstance(term, Atom):
-            name = term
+            name = term._name
             args = []
+        else:
+            return
 
-        remaining_clauses = self._find_predicates(name, len(args))[:]
+        remaining_clauses = self._find_predicates_or_empty(name, len(args))[:]
         i = 0
         while i < len(remaining_clauses):
             clause = remaining_clauses[i]
@@ -380,14 +385,17 @@ class YP(object):
 
     def retractall(self, term):
         '''retractall(Term) removes all dynamic facts matching Term, without backtracking over identical clauses.'''
+        term = get_value(term)
         if isinstance(term, Functor):
             name = term._name
             args = term._args
         elif isinstance(term, Atom):
-            name = term
+            name = term._name
             args = []
+        else:
+            return YPFail()
         remaining_clauses = []
-        for clause in self._find_predicates(name, len(args)):
+        for clause in self._find_predicates_or_empty(name, len(args)):
             match = False
             for cut in clause.match(args):
                     match = True
@@ -504,6 +512,9 @@ class YP(object):
             return self._predicates_store[(name, arity)]
         except KeyError:
             raise YPException('Unknown predicate: %s/%d' % (name, arity))
+
+    def _find_predicates_or_empty(self, name, arity):
+        return self._predicates_store.get((name, arity), [])
 
     def _update_predicate(self, name, arity, clauses):
         self._predicates_store[(name.name(), arity)] = clauses
